@@ -150,8 +150,13 @@ func VerifC19_Helpers() {
 	perHostOutcome := verifChoose("perHostOutcome", 4)
 	storeOutcome := verifChoose("storeOutcome", 4)
 	cfg := configData{Auths: map[string]authConfig{}}
+	// a per-host entry may also name no helper at all (""), which pins the host to the
+	// auths table regardless of the default store
+	emptyPerHost := !hasPerHost && verifBool("perHostEntryWithEmptyName")
 	if hasPerHost {
 		cfg.CredHelpers = map[string]string{"h": "perhost"}
+	} else if emptyPerHost {
+		cfg.CredHelpers = map[string]string{"h": ""}
 	}
 	if hasStore {
 		cfg.CredsStore = "store"
@@ -191,6 +196,9 @@ func VerifC19_Helpers() {
 		table = ConfigEntry{Username: "tableuser", Password: "tablepass"}
 	}
 	switch {
+	case emptyPerHost:
+		verifAssert(len(calls) == 0 && err == nil && e == table, "empty-per-host-helper-pins-the-host-to-the-table")
+		verifCover("pinned")
 	case hasPerHost:
 		// the per-host helper's answer is final, whatever it is
 		verifAssert(len(calls) == 1 && calls[0] == "perhost", "per-host-helper-consulted-alone")
